@@ -151,4 +151,8 @@ Section Sphere.
   Definition mag_factor : F := f_1 / fofZ o 10000000%Z.
   Definition meg_sensor (q r0 r ori : vec) : F :=
     mag_factor * (dot (sarvas q r0 r) ori / sv_norm o ori).
+
+  (* the part of the MEG reading that the pipeline computes in closed form (DipSource2MEGMat): primary current only *)
+  Definition meg_primary_sensor (q r0 r ori : vec) : F :=
+    mag_factor * (dot (biot_savart_primary q r0 r) ori / sv_norm o ori).
 End Sphere.
